@@ -45,7 +45,7 @@ impl<T: RefCnt> CaS<T> for RwLock<()> {
         current: C,
         new: T,
     ) -> Self::Protected {
-        let _lock = self.write();
+        let lock = self.write();
         let cur = current.as_raw();
         let new = T::into_ptr(new);
         let swapped = storage.compare_exchange(cur, new, Ordering::AcqRel, Ordering::Relaxed);
@@ -55,9 +55,16 @@ impl<T: RefCnt> CaS<T> for RwLock<()> {
         };
         let old = T::from_ptr(old as *const T::Base);
         if swapped.is_err() {
-            // If the new didn't go in, we need to destroy it and increment count in the old that
-            // we just duplicated
+            // If the new didn't go in, we need to increment count in the old that we just
+            // duplicated (still under the lock, so nobody takes it away in the meantime)...
             T::inc(&old);
+        }
+        // The destructors below are arbitrary code of the user. They may panic or even come back
+        // to this very storage (which would be a deadlock under the lock), so run them only once
+        // the lock is released.
+        drop(lock);
+        if swapped.is_err() {
+            // ... and destroy the new one that didn't go in.
             drop(T::from_ptr(new));
         }
         drop(current);
